@@ -635,7 +635,7 @@ def check_reduced_shifts(ctx) -> None:
         for c in cs:
             for kw_name, pos in (("shifts_left_red", 1), ("shifts_right_red", 2)):
                 v = next((k.value for k in c.keywords if k.arg == kw_name), None)
-                if v is None:
+                if v is None or (isinstance(v, ast.Constant) and v.value is None):
                     continue
                 r6.instance(f"{f.short}: {kw_name}={norm1(v, 50)}")
                 ids = []
